@@ -1047,6 +1047,17 @@ M("C08", "titan-fragment-check-dropped", "breaking",
 M("C08", "titan-userinfo-check-on-cut-part", "breaking",
   [(RQ, "TitanRequest.from_line", "        if \"@\" in re.split(r\"[/?#]\", line[8:], maxsplit=1)[0]:\n", "        if \"@\" in line.split(\";\", 1)[0]:\n")],
   "V2:protocol.request:TitanRequest.from_line:titan-accepts:a user-info")
+M("C08", "revert-fix-titan-param-control-chars", "breaking",
+  [(RQ, "TitanRequest.from_line", "        if \"\\t\" in line or \"\\r\" in line or \"\\n\" in line:\n            raise ValueError(\"Invalid URL: TAB, CR and LF characters are not allowed\")\n", "")],
+  "V2:protocol.request:TitanRequest.from_line:titan-accepts:a bare LF")
+M("C08", "titan-control-chars-checked-on-url-part-only", "breaking",
+  [(RQ, "TitanRequest.from_line", "        if \"\\t\" in line or \"\\r\" in line or \"\\n\" in line:\n", "        head = line.split(\";\", 1)[0]\n        if \"\\t\" in head or \"\\r\" in head or \"\\n\" in head:\n")],
+  "V2:protocol.request:TitanRequest.from_line:titan-accepts:a bare LF")
+M("C08", "titan-control-chars-tab-forgotten", "breaking",
+  [(RQ, "TitanRequest.from_line", "        if \"\\t\" in line or \"\\r\" in line or \"\\n\" in line:\n", "        if \"\\r\" in line or \"\\n\" in line:\n")],
+  "V2:protocol.request:TitanRequest.from_line:titan-accepts:a TAB")
+M("C08", "benign-titan-control-chars-by-any", "benign",
+  [(RQ, "TitanRequest.from_line", "        if \"\\t\" in line or \"\\r\" in line or \"\\n\" in line:\n", "        if any(c in line for c in (\"\\t\", \"\\r\", \"\\n\")):\n")])
 M("C08", "benign-titan-authority-by-partition", "benign",
   [(RQ, "TitanRequest.from_line", "        if \"@\" in re.split(r\"[/?#]\", line[8:], maxsplit=1)[0]:\n", "        authority = line[len(\"titan://\"):].partition(\"/\")[0].partition(\"?\")[0]\n        if \"@\" in authority:\n")])
 
